@@ -6,16 +6,19 @@ against a small reference automaton kept by the harness.
 """
 from __future__ import annotations
 
-from opsim import seams
-from opsim.core import CLOCK
-from opsim.sched import SeqTracer, SimLock
+import datetime as _dt
+import enum
+
+from opsim import seams, lin
+from opsim.core import CLOCK, derive, HarnessError
+from opsim.sched import SeqTracer, SimLock, Sched
 from opsim.util import call, weighted
 
 from operon_ai.state.telomere import Telomere, LifecyclePhase as P
 
 ID = "C09"
 LEVEL = "exploration"
-ENGINE = "seq"
+ENGINE = "seq+threads"
 RUNS = {"quick": 40_000, "thorough": 1_500_000}
 RULE = ("seeded histories (depth <=7 quick / <=12 thorough) over {start,tick(cost),record_error,heartbeat,"
         "check_timeouts,renew,trigger_apoptosis,terminate,reset,clock moves to just below/above each limit,"
@@ -27,7 +30,7 @@ COMPONENTS = {"real": ["operon_ai.state.telomere.Telomere"],
 ASSUMPTIONS = ["reset() is modelled as re-initialisation", "boundary 'exactly at the time limit' is not asserted",
                "callbacks do not raise (a raising callback is the caller's own exception)"]
 EXPECT_PROBES = ("phase_SENESCENT", "phase_TERMINATED", "renewed_from_senescent", "timeout_forced",
-                 "clock_backward", "tick_before_start")
+                 "clock_backward", "tick_before_start", "threads_run", "lin_checked", "preempted_while_holding_a_lock")
 
 # which call may perform a transition is fixed by the statement only for renewal, apoptosis, termination
 ANY = ("start", "tick", "err", "hb", "check", "renew")
@@ -37,13 +40,43 @@ LEGAL = {("NASCENT", "ACTIVE"): ANY,
 END = ("APOPTOTIC", "TERMINATED")
 
 
+def _gen_threads(rng, tier):
+    """2-3 tasks x 1-3 lifecycle calls on one shared Telomere (the lifecycle has a lock: callers may be threads)."""
+    cfg = {"max_ops": rng.choice([2, 3, 5, 8, 12]), "err_thr": rng.randint(1, 3), "renewal": rng.random() < 0.8,
+           "life_h": None, "idle_m": None, "silent": rng.random() < 0.85}
+    table = [(2.0, "start"), (5, "tick"), (2, "err"), (0.5, "hb"), (0.8, "check"), (1.5, "renew"),
+             (1.2, "apop"), (1.5, "term"), (0.3, "reset")]
+
+    def one():
+        o = weighted(rng, table)
+        if o == "tick":
+            return ["tick", rng.choice([1, 1, 1, 2, cfg["max_ops"]])]
+        if o == "renew":
+            return ["renew", rng.choice([None, 1, cfg["max_ops"]]), rng.random() < 0.6]
+        return [o]
+    pre = []
+    r = rng.random()
+    if r < 0.35:
+        pre = [["start"]] + [["tick", 1] for _ in range(rng.randint(0, cfg["max_ops"]))]
+    elif r < 0.5:
+        pre = [["start"], ["err"]]
+    tasks = [[one() for _ in range(rng.randint(1, 3))] for _ in range(rng.choice([2, 2, 3]))]
+    strat = dict(weighted(rng, [(1, {"kind": "serial"}), (2, {"kind": "uniform"}), (3, {"kind": "sticky", "p": 0.8}),
+                                (3, {"kind": "sticky", "p": 0.95}), (2, {"kind": "pct", "d": 2, "est": 120}),
+                                (2, {"kind": "lock_biased", "k": 3})]))
+    return {"family": "threads", "config": {**cfg, "strategy": strat}, "pre": pre, "tasks": tasks}
+
+
 def gen(rng, tier, i):
+    if rng.random() < 0.25:
+        return _gen_threads(rng, tier)
     cfg = {
         "max_ops": rng.choice([1, 2, 3, 4, 5, 8, 10, 12]),
         "err_thr": rng.randint(1, 4),
         "renewal": rng.random() < 0.75,
         "life_h": rng.choice([None, None, 1.0, 0.5]),
         "idle_m": rng.choice([None, None, 5.0, 30.0]),
+        "silent": rng.random() < 0.85,
     }
     depth = rng.randint(2, 7 if tier == "quick" else 12)
     table = [(1.5, "start"), (6, "tick"), (2.5, "err"), (0.7, "hb"), (1.5, "check"), (2, "renew"),
@@ -80,8 +113,14 @@ def gen(rng, tier, i):
 
 def simplify(plan):
     cfg = plan["config"]
-    for key, small in (("life_h", None), ("idle_m", None), ("renewal", True)):
-        if cfg[key] != small:
+    if plan.get("family") == "threads":
+        for key in ("err_thr", "max_ops"):
+            for small in (1, 2, 3):
+                if small < cfg[key]:
+                    yield {**plan, "config": {**cfg, key: small}}
+        return
+    for key, small in (("life_h", None), ("idle_m", None), ("renewal", True), ("silent", True)):
+        if cfg.get(key, small) != small:
             yield {**plan, "config": {**cfg, key: small}}
     for key in ("err_thr", "max_ops"):
         for small in (1, 2, 3):
@@ -98,7 +137,177 @@ def simplify(plan):
             yield {**plan, "ops": ops}
 
 
+def _mk(cfg, stream):
+    return Telomere(max_operations=cfg["max_ops"], max_lifetime_hours=cfg["life_h"],
+                    idle_timeout_minutes=cfg["idle_m"], error_threshold=cfg["err_thr"],
+                    allow_renewal=cfg["renewal"],
+                    on_phase_change=lambda a, b: stream.append((a.name, b.name)),
+                    silent=cfg.get("silent", True))
+
+
+def _do(t, op):
+    name = op[0]
+    if name == "start":
+        return t.start()
+    if name == "tick":
+        return t.tick(op[1])
+    if name == "err":
+        return t.record_error()
+    if name == "hb":
+        return t.heartbeat()
+    if name == "check":
+        return t.check_timeouts()
+    if name == "renew":
+        return t.renew(op[1], op[2])
+    if name == "apop":
+        return t.trigger_apoptosis("sim")
+    if name == "term":
+        return t.terminate()
+    if name == "reset":
+        return t.reset()
+    raise HarnessError(f"unknown op {op}")
+
+
+def _observe(t):
+    st = t.get_status()
+    s = t.get_statistics()
+    return [t.get_phase().name, st.telomere_length, s.get("operations_count"), s.get("error_count"), s.get("renewal_count")]
+
+
+_SCALARS = (int, float, str, bool, type(None), enum.Enum, _dt.datetime, _dt.timedelta)
+
+
+def _snap(obj):
+    out = {}
+    for a, v in vars(obj).items():
+        if isinstance(v, list):
+            out[a] = list(v)
+        elif isinstance(v, _SCALARS):
+            out[a] = v
+    return out
+
+
+def _run_threads(plan, k):
+    """Concurrent callers: every explored schedule must be deadlock-free, announce only legal transitions and be
+    linearizable with respect to the real Telomere run sequentially (whose semantics the sequential family pins)."""
+    cfg = plan["config"]
+    scope = [seams.src("operon_ai/state/telomere.py")]
+    sched = Sched(k, cfg.get("strategy"), switches=plan.get("switches"),
+                  rng=derive(plan.get("_seedpath", "replay"), "sched"), scope=scope, max_steps=60_000)
+    stream = []
+    t = _mk(cfg, stream)
+    seams.assert_sim_lock(t)
+    k.probe("threads_run")
+    with SeqTracer(k, scope, 20_000) as tr:
+        for op in plan.get("pre") or []:
+            out = call(_do, t, op, tracer=tr)
+            if out.kind != "ok":
+                k.violation("returns", {"deadlock": "self_deadlock", "step_budget": "no_return_within_step_budget"}.get(
+                    out.kind, f"raised:{type(out.exc).__name__}" if out.exc is not None else out.kind), f"{op[0]}xpre")
+                return
+    pre_stream_len = len(stream)
+    hist = []
+
+    def body(ti, ops):
+        def f():
+            me = sched.cur
+            for oi, op in enumerate(ops):
+                inv = k.ev("inv", [ti, oi, op[0]])
+                me.op = op[0]
+                out = call(_do, t, op)
+                me.op = None
+                ret = k.ev("ret", [ti, oi, out.brief()])
+                if out.kind == "raised":
+                    k.violation("returns", f"raised:{type(out.exc).__name__}", f"{op[0]}xthreads", repr(out.exc)[:200])
+                    obs = ["raised", type(out.exc).__name__]
+                elif out.kind != "ok":
+                    raise HarnessError(f"unexpected outcome {out.kind} in a scheduled task")
+                else:
+                    obs = out.value
+                hist.append({"id": len(hist), "inv": inv, "ret": ret, "obs": obs, "op": op, "task": ti})
+        return f
+
+    for ti, ops in enumerate(plan["tasks"]):
+        sched.spawn(body(ti, ops), name=f"t{ti}")
+    sched.run()
+    plan["switches"] = sched.switches
+    k.steps += sched.steps
+    k.key = ["threads", {x: cfg[x] for x in cfg if x != "strategy"}, plan.get("pre"), plan["tasks"]]
+    k.nontrivial = sched.preempt_in_op > 0
+    for tk in sched.tasks:
+        if tk.exc is not None:
+            if isinstance(tk.exc, HarnessError):
+                raise tk.exc
+            raise HarnessError(f"task {tk.name} died: {tk.exc!r}")
+    v = sched.verdict
+    if v and v[0] == "deadlock":
+        kinds = sorted({(x.op or "?") for x in sched.tasks if isinstance(x.waiting_on, SimLock) and x.held})
+        k.violation("returns", "deadlock", "+".join(kinds) or "?", " | ".join(v[1]))
+        return
+    if v and v[0] == "step_budget":
+        k.violation("returns", "no_return_within_step_budget", "threads")
+        return
+
+    # ---- the announced transitions are legal and gap-free whatever the schedule
+    cur = stream[pre_stream_len - 1][1] if pre_stream_len else "NASCENT"
+    resets = sum(1 for h in hist if h["op"][0] == "reset")
+    for (a, b) in stream[pre_stream_len:]:
+        if a != cur and not resets:
+            k.violation("legal_transition", "gap_in_stream", f"threads:{cur}!={a}->{b}")
+        if a == b and a in END:
+            pass
+        elif b in END:
+            if a == "TERMINATED" and b == "APOPTOTIC":
+                k.violation("absorbing", "left_terminated", "threads")
+        elif (a, b) not in LEGAL:
+            k.violation("legal_transition", f"illegal:{a}->{b}", "threads")
+        if a == "TERMINATED" and b != "TERMINATED":
+            k.violation("absorbing", "left_terminated", "threads")
+        cur = b
+    final = _observe(t)
+    k.ev("final", [final, stream[pre_stream_len:]])
+    if not (0 <= final[1] <= cfg["max_ops"]):
+        k.violation("range", "length_out_of_range", "threads", str(final))
+
+    # ---- linearizability against the real lifecycle run sequentially
+    ref_stream = []
+    ref = _mk(cfg, ref_stream)
+    for op in plan.get("pre") or []:
+        _do(ref, op)
+    base = len(ref_stream)
+
+    def apply(o):
+        try:
+            return _do(ref, o["op"])
+        except Exception as e:
+            return ["raised", type(e).__name__]
+
+    def snapshot():
+        return (_snap(ref), list(ref_stream))
+
+    def restore(sn):
+        ref.__dict__.update({a: (list(x) if isinstance(x, list) else x) for a, x in sn[0].items()})
+        ref_stream[:] = sn[1]
+
+    def state_key():
+        return (tuple((a, x) for a, x in sorted(_snap(ref).items()) if not isinstance(x, list)), tuple(ref_stream[base:]))
+
+    def final_matches():
+        return _observe(ref) == final and ref_stream[base:] == stream[pre_stream_len:]
+
+    try:
+        ok, nodes, order = lin.check(hist, apply, snapshot, restore, state_key, final_matches)
+    except OverflowError:
+        raise HarnessError("linearizability search exceeded its node budget")
+    k.probe("lin_checked")
+    if not ok:
+        k.violation("linearizable", "outcome_not_sequential", "threads",
+                    f"final={final} stream={stream[pre_stream_len:]} returns={[(h['task'], h['op'][0], h['obs']) for h in hist]}")
+
+
 def run(plan, k):
+    if plan.get("family") == "threads":
+        return _run_threads(plan, k)
     cfg = plan["config"]
     stream = []          # (old, new) announced through on_phase_change
     sen = []
@@ -106,7 +315,7 @@ def run(plan, k):
                  idle_timeout_minutes=cfg["idle_m"], error_threshold=cfg["err_thr"],
                  allow_renewal=cfg["renewal"],
                  on_phase_change=lambda a, b: stream.append((a.name, b.name)),
-                 on_senescence=lambda r: sen.append(r.name), silent=True)
+                 on_senescence=lambda r: sen.append(r.name), silent=cfg.get("silent", True))
     if isinstance(getattr(t, "_lock", None), SimLock):
         k.probe("subject_lock_is_sim")
     life = cfg["life_h"] * 3600.0 if cfg["life_h"] else None
